@@ -378,7 +378,9 @@ def check_C08(tier, seed):
 
 def check_C16(tier, seed):
     lrs = [g for g in cores.lr_catalogue() if g["name"] in (("lr_direct", "lr_indirect") if tier == "quick" else ("lr_direct", "lr_two", "lr_nest", "lr_indirect", "lr_indirect2", "lr_postfix"))]
-    return run_ref_property("C16", tier, seed, cores.budget_catalogue(), ["C16"], 2, 3, tq=120, tt=1800, extra=[(g, "lr") for g in lrs],
+    bc = cores.budget_catalogue()
+    opt_extra = [(g, "opt") for g in (bc[::2] if tier == "quick" else bc)] + [(g, "lropt") for g in lrs[:1]]
+    return run_ref_property("C16", tier, seed, bc, ["C16"], 2, 3, tq=120, tt=1800, extra=[(g, "lr") for g in lrs] + opt_extra,
                             flagsets_q=("std",), flagsets_t=("std", "lr"), max_steps=300_000, rnd=(8, 80, ("throw", "state")),
                             hre=r"Harness_C16(reuse)?$",
                             bounds_extra={"budget": "symbolic, 1..24 (1..12 for the non-terminating grammars)", "Memoize": "symbolic",
@@ -458,6 +460,9 @@ def overlay_explore(rep, prop, ov, hre, nmin, nmax, tmo, case_id, sample_every=5
 def _overlay_explore(rep, prop, ov, hre, nmin, nmax, tmo, case_id, sample_every=50, max_triage=6, args=None, native_fail_is_violation=False, **kw):
     agg = {"jobs": 0, "paths": 0, "completed": 0, "decisions": 0, "queries": 0, "solver_s": 0.0, "asserts": 0, "discharged": 0,
            "dropped": 0, "steps": 0, "cex": 0, "validated": 0, "validated_ok": 0, "engine_wall_s": 0.0, "externals": []}
+    only = os.environ.get("VERIF_ONLY")  # development aid (the evidence of such a run is not written to /verif/evidence)
+    if only and not re.search(only, case_id):
+        return agg
     res = ov.engine(harness=hre, nmin=nmin, nmax=nmax, timeout_s=tmo, sample_every=sample_every, args=sorted(args) if args is not None else None, **kw)
     if res.get("errors"):
         rep.inconclusive.append("engine: " + "; ".join(res["errors"])[:800])
@@ -618,6 +623,10 @@ def c19_grammars(quick, seed=0):
     # a diamond of rule references: B becomes inlinable only after its users were visited, A1 uses A2 and B with a
     # literal in between (the order in which the users are revisited decides the order of the merged class)
     out.append(("opt_diamond", hdr + "S <- A1+ Hex? Oct? Dec?\nA1 <- A2 / \"x\" / B\nA2 <- \"-\" B / \"y\"\nB <- \"1\" / C\nC <- \"0\"\nHex <- [0-9a-f] C\nOct <- [0-7] C\nDec <- [0-9] B\n", dict(optGrammar=True)))
+    # a label bound twice in one scope next to other labels (no flag needed): the parameter list of the code blocks
+    out.append(("dup_labels", hdr + "S <- a:'x' b:'y' ('z' a:'w' c:'v') { return a, nil }\nT <- v:'1' w:'2' v:'3' u:'4' &{ return true, nil } #{ return nil }\n", dict()))
+    # a failure label listed twice in one recovery operator, rules in a non-alphabetical order
+    out.append(("dup_faillabels", hdr + "S <- Z //{e1, e2, e1} Y //{e3, e3}\nZ <- 'a' / %{e1} / %{e3}\nY <- 'b' / %{e2}\nA <- Y Z\n", dict()))
     # the same left-recursive grammars with every rule on one source line (rules separated by ';')
     for name, text, fl in list(out):
         if fl.get("leftRec") and not name.startswith("lrrnd") and text.startswith(hdr):
@@ -806,6 +815,10 @@ def c13_grammars(quick):
         "A<-[a_-\\pL] [+-\\p{Nd}]i\n",
         "S<-K V;K<-W K?;V<-W V?\nW<-&{return true,nil}'a'\n",
         "A<-A 'x'/B 'y'/'a';B<-B 'p'/A 'q'/'b'\n",
+        # two left-recursive groups, the indirect one reaching the direct one at its first position; the direct rule
+        # sorts before (first text) or after (second text) the rules of the indirect group
+        "Stmt<-Tail ';'/'s';Tail<-Expr ','/Stmt 't';Expr<-Expr '+' 'n'/'n'\n",
+        "B<-C ';'/'s';C<-Z ','/B 't';Z<-Z '+' 'n'/'n';Y<-B\n",
     ]
     if quick:
         return short
@@ -844,6 +857,9 @@ def check_C13(tier, seed):
                 # shape grammar (code in a leaf rule inlined into two surviving rules): the unmutated shape matters,
                 # two positions whose mutation mostly keeps the text valid are enough in the quick tier
                 return [g.index("'a'") + 1, g.index("K?") + 1]
+            if "'+' 'n'/'n'" in g:
+                # shape grammars (two left-recursive groups, one reachable from the other at the first position)
+                return [g.index("'s'") + 1, g.index("'t'") + 1]
             if g.startswith("A<-A 'x'/B"):
                 # shape grammar (two rules, each directly and both mutually left-recursive: no leader candidate)
                 return [g.index("'x'") + 1, g.index("'q'") + 1]
@@ -975,17 +991,37 @@ func Harness_C03rt(n int) {
     for name, text, seps, want in lay:
         src.append("\t{%s, []byte(%s), []int{%s}, %s},\n" % (go_str_lit(name), go_str_lit(text), ", ".join(str(s) for s in seps), want))
     src.append("}\n\nconst c03MaxSeps = %d\nconst c03HoleLen = %d\n" % (maxseps, hole_len))
+    # rule terminators: the two newlines behind the initializer and behind every rule of a multi-rule skeleton
+    term = []
+    maxterms = 1
+    tskel = [g for g in cores.composites() if g["name"] in ("c_multirule", "c_display")] + [g for g in cores.throw_catalogue() if g["name"] in ("tr_called", "tr_resume")][: (1 if quick else 2)]
+    for g in tskel:
+        g = json.loads(json.dumps(g))
+        text, g2 = gspec.print_grammar_pos(g, "p")
+        tb = text.encode("utf-8")
+        ends = [r["_off"] - 2 for r in g2["rules"]] + [len(tb) - 2]
+        assert all(tb[o:o + 2] == b"\n\n" for o in ends), (g["name"], ends)
+        if quick:
+            ends = ends[:2] + ends[-1:]
+        maxterms = max(maxterms, len(ends))
+        term.append((g["name"], text, ends, gspec.go_any(gspec.expected_dump(g2, text, with_pos=False))))
+    src.append("\nvar c03Term = []c03Lay{\n")
+    for name, text, ends, want in term:
+        src.append("\t{%s, []byte(%s), []int{%s}, %s},\n" % (go_str_lit(name), go_str_lit(text), ", ".join(str(s) for s in ends), want))
+    src.append("}\n\nconst c03MaxTerms = %d\n" % maxterms)
+    term_args = [ci * maxterms + si for ci, (_, _, ends, _) in enumerate(term) for si in range(len(ends))]
     files = {"zz_verif_main.go": open(os.path.join(VERIF, "harness", "main_common.go")).read(),
              "zz_verif_dump.go": open(os.path.join(VERIF, "harness", "astdump_main.go")).read(),
              "zz_verif_c03h.go": open(os.path.join(VERIF, "harness", "c03_holes_main.go")).read(),
              "zz_verif_c03.go": "".join(src)}
-    names = ["Harness_C03rt", "Harness_C03layout", "Harness_C03comment", "Harness_C03escape", "Harness_C03class", "Harness_C03op", "Harness_C03ident", "Harness_C03code", "Harness_C03litbody"]
+    names = ["Harness_C03rt", "Harness_C03layout", "Harness_C03comment", "Harness_C03escape", "Harness_C03class", "Harness_C03op", "Harness_C03ident", "Harness_C03code", "Harness_C03litbody", "Harness_C03term"]
     ov = RepoOverlay(w, ".", "main", files, names)
     agg = overlay_explore(rep, "C03", ov, "Harness_C03rt$", 0, len(rt) - 1, 120, "c03_roundtrip", sample_every=1, max_triage=5, max_steps=20_000_000 if quick else 400_000_000)
     lay_args = [ci * maxseps + si for ci, (_, _, seps, _) in enumerate(lay) for si in range(len(seps))]
     tmo = 120 if quick else 900
     big = {} if quick else {"max_steps": 40_000_000}
     agg = merge_agg(agg, overlay_explore(rep, "C03", ov, "Harness_C03layout$", 0, 0, tmo, "c03_layout", sample_every=23, max_triage=3, args=set(lay_args), **big))
+    agg = merge_agg(agg, overlay_explore(rep, "C03", ov, "Harness_C03term$", 0, 0, tmo, "c03_term", sample_every=23, max_triage=3, args=set(term_args), **big))
     agg = merge_agg(agg, overlay_explore(rep, "C03", ov, "Harness_C03comment$", 0, 0, tmo, "c03_comment", sample_every=23, max_triage=3, args=set(lay_args[::2] if quick else lay_args), **big))
     # double, single, class, class range bound; the 9-byte form (\UXXXXXXXX) only in the two quotings
     esc_args = [q * 16 + n for q in (0, 1, 2, 3) for n in (1, 3, 5)] + ([] if quick else [q * 16 + 9 for q in (0, 1)])
@@ -1001,6 +1037,7 @@ func Harness_C03rt(n int) {
     agg.pop("_samples", None)
     std_cov(rep, agg, rt, {"roundtrip_grammars": len(rt), "layouts": "4 styles: spaces, newline+tab with = and ;, unicode arrows with // and /* */ comments",
                            "layout_holes": "%d symbolic layout bytes at %d token boundaries of %d skeletons; comments with 2 symbolic bytes" % (hole_len, len(lay_args), len(lay)),
+                           "terminator_holes": "%d symbolic layout bytes in front of a semicolon (blanks, tabs, CR, LF) or of an end of line (blanks, tabs, CR), with and without a following newline, at %d rule / initializer ends of %d skeletons" % (hole_len, len(term_args), len(term)),
                            "escape_holes": "escape bodies of length %s in double and single quotes and inside classes (alone and as a range bound), all bytes symbolic, assumed valid by the reference decoder" % ("1,3,5" if quick else "1,3,5,9"),
                            "class_holes": "class bodies of <= %d symbolic printable ASCII bytes, and <= %d symbolic bytes between 8 concrete prefix/suffix shapes (pending character, complete range, two ranges, leading/trailing dash); ^ and i symbolic" % ((3, 2) if quick else (4, 3)),
                            "random_grammars": "seeded sample (seed %d) added to the round trips" % seed,
@@ -1196,7 +1233,7 @@ def check_C04(tier, seed):
     allcls = gspec.grammar("c04_allclasses", [gspec.rule("S", gspec.act(gspec.label("x", gspec.star(gspec.cls(classes=classes))), gspec.b_rec("s")))])
     base = [allcls] + cores.composites()[:3] + cores.state_catalogue()[:2] + cores.throw_catalogue()[:2] + cores.context_catalogue()[:2] + cores.fault_catalogue()[:1]
     base += [g for g in cores.opt_catalogue() if g["name"].startswith(("og_sharedcode", "og_entry"))]
-    base += [g for g in cores.throw_catalogue() if g["name"] in ("tr_lblshare",)]
+    base += [g for g in cores.throw_catalogue() if g["name"] in ("tr_lblshare", "tr_duplist", "tr_lblshadow")]
     base += rnd_cat(tier, seed, 6, 40, ("state", "throw"))
     if not quick:
         base += cores.composites()[3:] + cores.state_catalogue()[2:8] + cores.throw_catalogue()[2:] + cores.opt_catalogue()[::3] + cores.pair_core()[::10]
@@ -1258,19 +1295,27 @@ def check_C04(tier, seed):
             else:
                 rep.violation(save_replay("C04", doc), "generated parser of catalogue grammar %s does not build/vet: %s" % (cid, l[:200]))
     # (3) optimizer-made label clash (two rules with the same label, one inlined into the other)
-    clash = "{\npackage p\n}\nS <- v:'a' A { return v, nil }\nA <- v:'b' 'c'?\n"
-    ok, err, code = gen_parser(w, clash, ["-optimize-grammar"], "c04_clash/p")
-    if ok:
-        b = subprocess.run(["go", "build", "./c04_clash/p"], cwd=w.mod, env=base_env(), capture_output=True, text=True, errors="replace")
+    # witness grammars of the known ways to obtain a duplicate declaration (each is re-confirmed with go build; the day
+    # one of them compiles it simply stops being reported; any other compile failure of these texts is a violation)
+    witnesses = [
+        ("inlined_label_clash", "{\npackage p\n}\nS <- v:'a' A { return v, nil }\nA <- v:'b' 'c'?\n", ["-optimize-grammar"], ["inlined-label-clash"]),
+        ("duplicate_rule_blocks", "{\npackage p\n}\nS <- A\nA <- 'a' { return 1, nil }\nA <- 'b' { return 2, nil }\n", [], ["duplicate-rule"]),
+        ("duplicate_label_in_scope", "{\npackage p\n}\nS <- a:'x' b:'y' ('z' a:'w') { return a, nil }\n", [], ["duplicate-label"]),
+    ]
+    for wi, (wname, wpeg, wflags, wtags) in enumerate(witnesses):
+        ok, err, code = gen_parser(w, wpeg, wflags, "c04_wit%d/p" % wi)
+        if not ok:
+            continue  # rejected with a diagnostic: nothing was emitted, C04 is not concerned
+        b = subprocess.run(["go", "build", "./c04_wit%d/p" % wi], cwd=w.mod, env=base_env(), capture_output=True, text=True, errors="replace")
         if b.returncode != 0:
-            doc = {"property": "C04", "case": "inlined_label_clash", "msg": "generated code does not compile: " + b.stderr.strip()[-200:], "peg": clash, "flags": ["-optimize-grammar"], "tags": ["inlined-label-clash"], "input": [], "model": {}}
+            doc = {"property": "C04", "case": wname, "msg": "generated code does not compile: " + b.stderr.strip()[-200:], "peg": wpeg, "flags": wflags, "tags": wtags, "input": [], "model": {}}
             k = match_known("C04", doc)
             if k is not None:
                 short = "%s %s" % (k["id"], k["what"])
                 if short not in rep.known:
                     rep.known.append(short)
             else:
-                rep.violation(save_replay("C04", doc), "S <- v:'a' A {...}, A <- v:'b' 'c'? with -optimize-grammar: " + b.stderr.strip()[-200:])
+                rep.violation(save_replay("C04", doc), "%s %s: %s" % (wname, " ".join(wflags), b.stderr.strip()[-200:]))
     rep.cov.update({
         "explanation": "Reduced claim (DESIGN.md §5): 'compiles and passes vet' is decided by the Go type checker over emitted text and has no SMT encoding. Solver-decided: injectivity of the generated method names in (rule name, expression index), names of 1..3 symbolic identifier characters, indices 1..999 (strconv.Itoa summarised symbolically). Concrete by-product: %d generated parsers (catalogue grammars x flag subsets, one grammar using all %d Unicode classes the front end accepts) are type-checked (go/packages), vetted (go vet) and initialised and run on all 1-byte inputs in the engine." % (len(good), len(classes)),
         "obligations": asserts + len(good) * 2, "discharged": discharged + (len(good) * 2 if vet_ok and not rep.inconclusive else 0),
